@@ -576,6 +576,11 @@ impl Memfs {
         let link = self._abs(guard, link)?;
         let target = target.as_ref().to_owned();
 
+        // Same as the real filesystem, an existing path can't be turned into a link
+        if guard.contains_entry(&link) {
+            return Err(PathError::exists_already(link).into());
+        }
+
         // Convert relative links to absolute to ensure they are clean
         let target = self._abs(guard, if !target.is_absolute() { link.dir()?.mash(target) } else { target })?;
 
